@@ -472,3 +472,35 @@ func vC17GroupsPerCall(calls []bool) {
 func H_C17_groups_per_call_rp()  { vC17GroupsPerCall([]bool{true, false}) }
 func H_C17_groups_per_call_pr()  { vC17GroupsPerCall([]bool{false, true}) }
 func H_C17_groups_per_call_rpr() { vC17GroupsPerCall([]bool{true, false, true}) }
+
+// one object held in several places below the top level (twice in a slice of pointers, by two pointer
+// fields, under two map keys): every holder position is an object of its own for the groups, so a violated
+// group is reported once per position
+type vGShared struct {
+	L  []*vG2          `valid:"exist"`
+	P1 *vG2            `valid:"exist"`
+	P2 *vG2            `valid:"required"`
+	M  map[string]*vGS `valid:"exist"`
+	N  *vGShared       `valid:"exist"`
+}
+
+func H_C17_shared_object_positions() {
+	p := &vG2{A: vStr("A"), B: vStr("B"), Z: "z"}
+	q := &vGS{A: vStr("SA"), B: "b"}
+	o := &vGShared{}
+	switch vndChoice("where", 5) {
+	case 0:
+		o.L = []*vG2{p, p}
+	case 1:
+		o.P1, o.P2 = p, p
+	case 2:
+		o.L, o.P2 = []*vG2{p}, p
+	case 3:
+		o.M = map[string]*vGS{"a": q}
+		o.N = &vGShared{M: map[string]*vGS{"b": q}}
+	default:
+		o.P1 = p
+		o.N = &vGShared{L: []*vG2{nil, p}, P2: p}
+	}
+	vRunGroups("C17 one object in several positions", o, false)
+}
